@@ -358,6 +358,24 @@ func init() {
 					c.NonTrivial("dag", fmt.Sprint(d))
 				}
 			}
+			if c.Idx%64 == 11 {
+				// members shadowed across two and three levels of embedding (value and pointer)
+				d3 := zoo.ShDeep3{X: 33, W: 34}
+				dp := zoo.ShDeep{X: 21, Y: 22, ShDeep3: d3}
+				shadows := []any{zoo.ShTop{X: "top", ShMid: zoo.ShMid{ShDeep: dp, Z: 3}}, &zoo.ShTop{X: "p"}, zoo.ShTopP{X: "top", ShMidP: &zoo.ShMidP{ShDeep: &dp, Z: 3}}, zoo.ShTopP{X: "nilmid"},
+					zoo.ShTopP{X: "nildeep", ShMidP: &zoo.ShMidP{Z: 4}}, zoo.ShTop1{ShMid1: zoo.ShMid1{W: "w", ShDeep: dp}, K: 5}, []zoo.ShTop{{X: "a"}, {X: "b", ShMid: zoo.ShMid{Z: 1}}},
+					map[string]any{"s": zoo.ShTop{X: "in-map", ShMid: zoo.ShMid{ShDeep: dp}}}, zoo.ShMid{ShDeep: dp, Z: 9}}
+				for si, x := range shadows {
+					if !c.Cur(7100+si, fmt.Sprintf("shapes=core\nshadowed embedded members: %T", x)) {
+						continue
+					}
+					v := reflect.ValueOf(x)
+					for ci := range encCfgs {
+						encCompare(c, 7100+si, "enc-diff", &encCfgs[ci], "direct", x, v.Type(), v, "")
+					}
+					c.NonTrivial("shadow", fmt.Sprintf("%T", x))
+				}
+			}
 			for k := 0; k < per; k++ {
 				t, feat := c01Type(c, k)
 				vo := gen.ValOpts{NilHeavy: k%3 == 0}
